@@ -62,8 +62,9 @@ TRUSTED = ['protobuf runtime: a str field accepts exactly text without surrogate
            'runtime parses the wire format as the Lean decoder does (proved: decode(encode m) = m for the Lean codec '
            'generated from the installed descriptors; compared byte for byte with the local upb runtime on every case, '
            'both directions, plus unknown fields / reordering / repeated scalars / padded varints / truncation / invalid '
-           'UTF-8). Not modelled: the 10-byte varint and 2 GiB message limits, groups, merging of a repeated singular '
-           'sub-message',
+           'UTF-8, a repeated map key, both members of a oneof, over-long enum varints). Deviations of the Lean decoder on '
+           'bytes no encoder writes: the list in Model/WireBytes.lean (10-byte varint / 2 GiB limits, groups, merging, '
+           'repeated map key, junk map entry, negative enum, wrong-wire-type oneof member)',
            'gRPC: metadata passed to a stub call is what is sent (fake channel records the keyword argument)',
            'CPython frames / sys.settrace deliver the generated locals to the collector']
 ASSUMPTIONS = ['tracepoint args are Dict[str, str] as typed (a non-str arg value cannot enter map<string,string>)',
@@ -649,6 +650,9 @@ class TokenProvider:
         self._config = config
 
     def provide(self):
+        if self._config.C08_MD_FORM == 'none':
+            Script.returns.append('NONE')          # a provider that answers None
+            return None
         md = [tuple(kv) for kv in json.loads(self._config.C08_MD)]
         Script.returns.append([list(kv) for kv in md])
         return tuple(md) if self._config.C08_MD_FORM == 'tuple' else md
@@ -1100,6 +1104,30 @@ def mutate_bytes(data, mut):
                 raw = enc_varint(tag) + enc_varint(n, pad=rng.choice([1, 3]), limit=5) + raw[j:]
             out.append(raw)
         return b''.join(out), True
+    def lenrec(fno, body):
+        return enc_varint(fno * 8 + 2) + enc_varint(len(body)) + body
+    if kind == 'dup-map-key':
+        # the same var_lookup key twice (a map on the wire is a repeated entry message): the later value is the entry
+        key = rng.choice(['dup', '1', 'é'])
+        first = lenrec(3, lenrec(1, key.encode()) + lenrec(2, lenrec(1, b'first')))
+        second = lenrec(3, lenrec(1, key.encode()) + lenrec(2, lenrec(1, b'second') + lenrec(2, b'v2')))
+        recs.insert(rng.randint(0, len(recs)), (3, 2, first))
+        return b''.join(r[2] for r in recs) + second, False
+    if kind == 'oneof-both':
+        # a WatchResult carrying BOTH members of its oneof, in either order: the member written last is the result
+        good = lenrec(2, lenrec(1, b'7') + lenrec(2, b'name'))
+        err = lenrec(3, rng.choice([b'boom', b'']))
+        members = [good, err] if rng.random() < 0.5 else [err, good]
+        if rng.random() < 0.3:
+            members.append(rng.choice([good, err]))
+        watch = lenrec(1, b'both') + b''.join(members) + enc_varint(5 * 8) + enc_varint(rng.choice([0, 1, 3]))
+        return data + lenrec(6, watch), False
+    if kind == 'big-enum':
+        # an enum is an int32 on the wire: a longer varint is cut to 32 bits (values with bit 31 set - negative in the
+        # runtime - are a listed deviation of the model and not generated)
+        v = rng.choice([2 ** 35 + 2, 2 ** 32 + 3, 2 ** 63 + 1, 2 ** 31 - 1, 3])
+        watch = lenrec(1, b'enum') + enc_varint(5 * 8) + enc_varint(v)
+        return data + lenrec(6, watch), False
     if kind == 'truncate':
         return data[:rng.randrange(len(data))] if data else data, False
     if kind == 'bad-utf8':
@@ -1227,6 +1255,8 @@ def inst_rotating(case):
 
 
 def known_finding(case, obs):
+    if case.get('stream') == 'bad-credentials':
+        return None                                   # judged: nothing may be sent
     if inst_rotating(case):
         return 'C08/auth-metadata-cached-forever'
     if inst_surrogate(case):
@@ -1251,7 +1281,22 @@ def expected_metadata(cfg):
 
 # provider names AuthProvider.get_provider cannot turn into a provider (no dot / no such attribute / no such module /
 # not callable / abstract class)
-UNLOADABLE = ['nodot', 'deep.api.auth.Missing', 'no.such.module.X', 'deep.api.auth.base64', 'deep.api.auth.AuthProvider']
+# ... / the attribute is None (the one reachable UnknownAuthProvider) / a loaded object that has no provide())
+UNLOADABLE = ['nodot', 'deep.api.auth.Missing', 'no.such.module.X', 'deep.api.auth.base64', 'deep.api.auth.AuthProvider',
+              'builtins.None', 'builtins.str']
+# a callable that returns None: get_provider returns None, which _build_metadata treats as "no provider configured"
+NOT_A_PROVIDER = ['logging.debug', 'logging.info']
+
+
+def bad_credentials(cfg):
+    """BasicAuthProvider with a credential it cannot encode: a lone surrogate (UnicodeEncodeError) or a non-str
+    (TypeError) - provide() raises on every call"""
+    if not (cfg.get('provider') or '').endswith('BasicAuthProvider'):
+        return False
+    u, w = cfg.get('username'), cfg.get('password')
+    if u is None or w is None:
+        return False
+    return any(not isinstance(x, str) or has_surrogate(x) for x in (u, w))
 
 
 def expected_provider_failures(case):
@@ -1342,8 +1387,15 @@ def oracle(case, obs):
         if not obs.get('bytes_ok'):
             v.append('KeyValue does not survive serialisation')
         return v
+    if bad_credentials(case['cfg']):
+        # the provider cannot supply a header for these credentials: no request may go out in its name
+        for i, w in enumerate(obs['wire']):
+            if w['kind'] in ('polled', 'pushed') or w.get('sent'):
+                v.append(f'operation {i} ({w["op"]}): a request was sent (metadata {w.get("metadata")}) although '
+                         f'BasicAuthProvider cannot encode the configured credentials')
+        return v[:6]
     exp = expected_metadata(case['cfg'])
-    has_provider = bool(case['cfg'].get('provider'))
+    has_provider = bool(case['cfg'].get('provider')) and case['cfg']['provider'] not in NOT_A_PROVIDER
     if has_provider and case['cfg']['provider'].endswith('BasicAuthProvider'):
         for r in obs.get('provider_returns', []):
             if r != exp:
@@ -1381,6 +1433,11 @@ def oracle(case, obs):
                              f'anything yet')
                     continue
                 exp = w['supplied']
+                if exp == 'NONE':
+                    # the provider answered None: that is what the request must carry (and nothing may be cached)
+                    if not w['has_metadata_kw'] or w['metadata'] is not None:
+                        v.append(f'operation {i} ({w["op"]}): metadata {w["metadata"]}, the provider supplies None')
+                    continue
                 if case['cfg'].get('rotate'):
                     exp = w['supplies_now']          # the token of the moment, not the one asked for earlier
             # (through HTTP/2 the order between DIFFERENT keys is not part of what gRPC guarantees: multiset there)
@@ -1428,7 +1485,8 @@ def model_request(case, obs):
     ops = []
     cfg = case['cfg']
     mc = {'provider': cfg.get('provider'), 'username': cfg.get('username'), 'password': cfg.get('password')}
-    if cfg.get('provider') and not cfg['provider'].endswith('BasicAuthProvider'):
+    if cfg.get('provider') and not cfg['provider'].endswith('BasicAuthProvider') \
+            and cfg['provider'] not in UNLOADABLE + NOT_A_PROVIDER:
         mc['custom'] = cfg.get('custom_md') or []
     if cfg.get('rotate'):
         return None                  # the constant-provider model does not apply (theorem c08_auth_rotation_witness)
@@ -1442,8 +1500,16 @@ def model_request(case, obs):
         else:
             spec = case['snaps'][i % len(case['snaps'])]
             ops.append({'push': dump_snapshot(hand_snapshot(spec))})
+    if cfg.get('md_form') == 'none':
+        return None                  # a provider answering None is outside the model's Metadata (documented)
     if cfg.get('provider') in UNLOADABLE:
-        mc['custom'] = []
+        mc['kind'] = 'unloadable'
+        return {'op': 'auth', 'cfg': mc, 'ops': ops, 'fail_first': 0, 'hex': [None] * len(ops)}
+    if cfg.get('provider') in NOT_A_PROVIDER:
+        mc['kind'] = 'not_a_provider'
+    if bad_credentials(cfg):
+        # the model's String cannot hold them; their outcome is the fault path on every call
+        mc['username'], mc['password'] = 'u', 'p'
         return {'op': 'auth', 'cfg': mc, 'ops': ops, 'fail_first': len(ops) + 1, 'hex': [None] * len(ops)}
     return {'op': 'auth', 'cfg': mc, 'ops': ops, 'fail_first': int(cfg.get('fail_first') or 0),
             'hex': [w.get('hex') for w in obs['wire'][:len(ops)]]}
@@ -1493,7 +1559,18 @@ def compare(case, obs, resp):
                        'refuses' if resp['decoded'] is None else 'ACCEPTS')]
         if obs['parsed'] is None:
             return []
-        return diff(canon_msg(resp['decoded']), canon_msg(obs['parsed']), 'wire (%s): model vs runtime' % case['mut']['kind'])[:3]
+        dec = resp['decoded']
+        if case['mut']['kind'] == 'dup-map-key':
+            # listed deviation 4 of Model/WireBytes.lean: the model keeps both entries, the runtime the LATER one
+            dec = dict(dec)
+            last = {}
+            for kv in dec['var_lookup']:
+                last[json.dumps(kv[0])] = kv
+            if len(last) == len(dec['var_lookup']):
+                return ['wire (dup-map-key): the model no longer keeps both entries of a repeated map key - update the '
+                        'deviation list of Model/WireBytes.lean']
+            dec['var_lookup'] = list(last.values())
+        return diff(canon_msg(dec), canon_msg(obs['parsed']), 'wire (%s): model vs runtime' % case['mut']['kind'])[:3]
     if k == 'uploads':
         mine = [m for m in obs['arrived'] if resp['msg'] is not None and m.get('ID') == resp['msg']['ID']]
         if len(mine) != 1:
@@ -1751,10 +1828,21 @@ def gen_auth(rng, stream='main'):
             case['concurrent'] = True
             case['ops'] = rng.choice([['poll', 'push'], ['push', 'poll'], ['push', 'push'], ['poll', 'poll']])
             return case
-    if stream == 'main' and not case.get('concurrent') and rng.random() < 0.08:
-        cfg['provider'] = rng.choice(UNLOADABLE)          # a provider class that cannot be loaded
+    if stream == 'main' and not case.get('concurrent') and rng.random() < 0.14:
+        r2 = rng.random()
         for k in ('custom_md', 'fail_first', 'md_form'):
             cfg.pop(k, None)
+        if r2 < 0.5:
+            cfg['provider'] = rng.choice(UNLOADABLE)          # a provider class that cannot be loaded
+        elif r2 < 0.7:
+            cfg['provider'] = rng.choice(NOT_A_PROVIDER)      # a callable that is not a provider
+        elif r2 < 0.85:
+            cfg['provider'] = 'props.c08.TokenProvider'       # a provider that answers None
+            cfg['custom_md'], cfg['md_form'] = [], 'none'
+        else:
+            cfg['provider'] = 'deep.api.auth.BasicAuthProvider'
+            cfg['username'], cfg['password'] = rng.choice([['bob', 'pw\ud800'], ['\udc00', 'x'], [5, 'x'], ['bob', 7]])
+            case['stream'] = 'bad-credentials'
         return case
     if rng.random() < 0.2:
         # through a real channel to a loopback gRPC server (gRPC metadata must be ASCII with lower-case keys)
@@ -1799,7 +1887,7 @@ def gen_wirebytes(rng):
             'attrs': [gen_attr(rng, i) for i in range(rng.choice([0, 1, 3]))],
             'resource': [gen_attr(rng, 10 + i) for i in range(rng.choice([0, 1]))]}
     kind = rng.choice(['unknown-field', 'unknown-field', 'reorder', 'dup-scalar', 'padded-varint', 'truncate', 'truncate',
-                       'bad-utf8'])
+                       'bad-utf8', 'dup-map-key', 'oneof-both', 'oneof-both', 'big-enum'])
     return {'kind': 'wirebytes', 'stream': 'main', 'snap': snap,
             'mut': {'kind': kind, 'seed': rng.randrange(2 ** 32), 'n': rng.choice([1, 2, 5])}}
 
@@ -1905,6 +1993,22 @@ def corpus():
         {'kind': 'auth', 'stream': 'main', 'cfg': {'provider': 'deep.api.auth.Missing'}, 'ops': ['poll', 'push', 'poll'],
          'resource': [['service.name', 'svc']],
          'snaps': [{'tp_id': 'tp0', 'ts': 1_700_000_000_000_000_000, 'attrs': [], 'resource': []}]},
+        {'kind': 'auth', 'stream': 'main', 'cfg': {'provider': 'builtins.None'}, 'ops': ['poll', 'push'], 'resource': [],
+         'snaps': [{'tp_id': 'tp0', 'ts': 1_700_000_000_000_000_000, 'attrs': [], 'resource': []}]},
+        {'kind': 'auth', 'stream': 'main', 'cfg': {'provider': 'logging.debug'}, 'ops': ['poll', 'push', 'poll'], 'resource': [],
+         'snaps': [{'tp_id': 'tp0', 'ts': 1_700_000_000_000_000_000, 'attrs': [], 'resource': []}]},
+        {'kind': 'auth', 'stream': 'main', 'cfg': {'provider': 'props.c08.TokenProvider', 'custom_md': [], 'md_form': 'none'},
+         'ops': ['poll', 'push', 'poll'], 'resource': [],
+         'snaps': [{'tp_id': 'tp0', 'ts': 1_700_000_000_000_000_000, 'attrs': [], 'resource': []}]},
+        {'kind': 'auth', 'stream': 'bad-credentials',
+         'cfg': {'provider': 'deep.api.auth.BasicAuthProvider', 'username': 'bob', 'password': 'pw\ud800'},
+         'ops': ['poll', 'push'], 'resource': [],
+         'snaps': [{'tp_id': 'tp0', 'ts': 1_700_000_000_000_000_000, 'attrs': [], 'resource': []}]},
+        {'kind': 'auth', 'stream': 'bad-credentials',
+         'cfg': {'provider': 'deep.api.auth.BasicAuthProvider', 'username': 5, 'password': 'x'},
+         'ops': ['push', 'poll'], 'resource': [],
+         'snaps': [{'tp_id': 'tp0', 'ts': 1_700_000_000_000_000_000, 'attrs': [], 'resource': []}]},
+        wb('dup-map-key', 7), wb('oneof-both', 8), wb('oneof-both', 9), wb('big-enum', 10),
         {'kind': 'auth', 'stream': 'main', 'concurrent': True,
          'cfg': {'provider': 'props.c08.ScriptedProvider', 'custom_md': [['authorization', 'Bearer s3cr3t']]},
          'ops': ['poll', 'push'], 'resource': [],
@@ -1958,7 +2062,7 @@ def known_replays():
 def label(case, obs):
     k = case['kind']
     s = case.get('stream', 'main')
-    pre = f'{k}/' + ('' if s == 'main' else 'seq-none/' if s == 'seq-none' else f'KNOWN:{s}/')
+    pre = f'{k}/' + ('' if s in ('main', 'bad-credentials') else 'seq-none/' if s == 'seq-none' else f'KNOWN:{s}/')
     if k == 'tpline':
         return pre + case['how'] + ('/not-built' if not obs.get('built') else '')
     if k == 'wirebytes':
@@ -1979,13 +2083,14 @@ def label(case, obs):
     p = case['cfg'].get('provider')
     return pre + ('grpc-loopback/' if case.get('transport') == 'grpc' else '') + (
         'two-threads/' if case.get('concurrent') else '') + (
-        'no-provider' if not p else 'unloadable' if p in UNLOADABLE else 'basic' if p.endswith('BasicAuthProvider') else
+        'no-provider' if not p else 'unloadable' if p in UNLOADABLE else 'not-a-provider' if p in NOT_A_PROVIDER else
+        'answers-none' if case['cfg'].get('md_form') == 'none' else 'bad-credentials' if bad_credentials(case['cfg']) else 'basic' if p.endswith('BasicAuthProvider') else
         'scripted-fail%d' % int(case['cfg'].get('fail_first') or 0) if p.endswith('ScriptedProvider') else 'custom')
 
 
 def nontrivial(case, obs):
     k = case['kind']
-    if case.get('stream', 'main') not in ('main', 'seq-none'):
+    if case.get('stream', 'main') not in ('main', 'seq-none', 'bad-credentials'):
         return False
     if k == 'tpline':
         return bool(obs.get('built')) and case['how'] == 'method'
